@@ -321,6 +321,7 @@ func (w *World) triggerReady(a Action) bool {
 // (kind cl.wait) until its trigger holds and the scheduler picks it, then the call
 // itself runs in this goroutine, parking at seams like any engine goroutine.
 func (w *World) runClient(name string, actions []Action, sim *Sim) {
+	simSetNoYield(true) // simulated clients are part of the simulator
 	defer func() {
 		w.mu.Lock()
 		w.clientsRunning--
@@ -598,7 +599,7 @@ func (s *Sim) settleControl(client string) {
 		}
 	}
 	w.or.scenarioChecks(w)
-	if w.or.ctl.shutdown || w.hasViolation() || strings.HasPrefix(w.cfg.Scenario, "fatal-") {
+	if w.or.ctl.shutdown || w.hasOwnViolation() || strings.HasPrefix(w.cfg.Scenario, "fatal-") {
 		return // the server is shutting down / the pipeline is broken for good: nothing is started any more
 	}
 	st, _ = w.or.effStatus(w)
